@@ -1,5 +1,6 @@
 import ClusterVerif.Spec.C08
 import ClusterVerif.Model.C08Add
+import ClusterVerif.Model.C08Util
 import ClusterVerif.Gen.C08
 import Driver.Parse
 import Driver.C08Wire
@@ -313,6 +314,22 @@ def sameNameSet (s : String) (expected : List String) : Bool :=
   let got := if expected == [""] then [s] else s.splitOn ","
   (sortS got) == (sortS expected)
 
+def parsePeerOpt (t : String) : Option (Option Nat) :=
+  if t == "p-" then some none else if t.startsWith "p" then ((t.drop 1).toString.toNat?).map some else none
+
+def parseItem (t : String) : Option Util.SItem :=
+  if t == "e" then some .empty else if t == "j" || t == "k" then some .junk
+  else if t.startsWith "b" then ((t.drop 1).toString.toNat?).map .b58
+  else if t.startsWith "c" then ((t.drop 1).toString.toNat?).map .cid
+  else if t.startsWith "s" then ((t.drop 1).toString.toNat?).map fun _ => .junk
+  else none
+
+def showItem : Util.SItem → String
+  | .b58 n => "b" ++ toString n
+  | .cid n => "c" ++ toString n
+  | .empty => "e"
+  | .junk => "?"
+
 def answerStr (ws : List String) : String :=
   match ws with
   | [kind, arg, "=>", "panic"] => "propfail no_crash arm=str-" ++ kind ++ " " ++ arg.take 20
@@ -352,6 +369,23 @@ def answerStr (ws : List String) : String :=
       if unStr s != typeString v || b != m then "diff arm=str-pt model=" ++ typeString v ++ " " ++ toString m
       else "ok arm=str-pt" ++ (if [1, 2, 4, 8, 16, 30].contains v then "" else " trivial")
     | _, _ => "bad-case str-pt"
+  | ["p2s", arg, "=>", its, back] =>
+    match (listToks arg).mapM parsePeerOpt with
+    | none => "bad-case str-p2s"
+    | some ps =>
+      let strs := Util.peersToStrings ps
+      let m := showList (strs.map showItem) ++ " " ++ showList ((Util.stringsToPeers strs).map fun n => "p" ++ toString n)
+      if m != its ++ " " ++ back then "diff arm=str-p2s model=" ++ m
+      else "ok arm=str-p2s" ++ (if ps.contains none then "-empty-id" else "")
+  | ["s2p", arg, "=>", peers, its] =>
+    match (listToks arg).mapM parseItem with
+    | none => "bad-case str-s2p"
+    | some ss =>
+      let ps := Util.stringsToPeers ss
+      let m := showList (ps.map fun n => "p" ++ toString n) ++ " " ++ showList ((Util.peersToStrings (ps.map some)).map showItem)
+      if m != peers ++ " " ++ its then "diff arm=str-s2p model=" ++ m
+      else "ok arm=str-s2p" ++ (if ss.any (fun i => match i with | .cid _ => true | _ => false) then "-cid-form"
+                                 else if ps.length < ss.length then "-skipped" else "")
   | [kind, arg, "=>", res] =>
     match res.toNat? with
     | none => "bad-case str-parse-result"
